@@ -1,6 +1,7 @@
 """C18 - inspecting commands are read-only; create writes one file; rename never clobbers."""
 import argparse
 import os
+import shutil
 
 from hypothesis import strategies as st
 
@@ -47,11 +48,21 @@ def strategy(tier):
         if cmd in ("create", "new"):
             c["out_mode"] = draw(st.sampled_from(["none", "file", "existing-file", "dir"]))
             c["version"] = draw(st.sampled_from(["1", "2", "3"]))
+            if draw(st.sampled_from([True] + [False] * 5)):
+                # a payload that is itself called *.torrent (a single file, or a directory)
+                t = dict(t)
+                t["name"] = draw(st.sampled_from(["data.torrent", "old.torrent", "x.y.torrent"]))
+                c["tree"] = t
         if cmd == "rename":
             if draw(st.sampled_from([True, False, False])):
                 # names that are also shell patterns / differ only in case from something: "exists" must mean this exact name
                 t = dict(t)
                 t["name"] = draw(st.sampled_from(["Title [2020]", "x[1]", "a*b", "what?", "[abc]"]))
+                c["tree"] = t
+            if draw(st.sampled_from([True] + [False] * 5)):
+                # longer than 247 bytes: <name>.torrent does not fit into one path component
+                t = dict(c["tree"])
+                t["name"] = "L" * 243 + draw(st.sampled_from([" disc 1", " disc 2", "-final!"]))
                 c["tree"] = t
             c["occupied"] = draw(st.booleans())
             c["occupant"] = draw(st.sampled_from(["junk", "identical-copy", "same-info-other-trackers"]))
@@ -67,7 +78,9 @@ def run_case(case):
     tree = case["tree"]
     name = tree["name"]
     if name in ("m", "new", "edit", "info", "check", "create", "magnet", "rename", "rebuild", "recheck", "outdir", "notes.txt", ".torrent",
-                "m.torrent", "x", "m.torrent.bak", "weird name.torrent") or name.endswith(".torrent"):
+                "m.torrent", "x", "m.torrent.bak", "weird name.torrent"):
+        return Outcome(None, False, ["name-clash"])
+    if name.endswith(".torrent") and case["cmd"] not in ("create", "new"):
         return Outcome(None, False, ["name-clash"])
     classes = ["cmd-" + case["cmd"]]
     with sandbox.Scratch("c18") as scr:
@@ -92,6 +105,8 @@ def run_case(case):
             p = os.path.join(box, b.replace("NAME", name))
             if b == "NAME.torrent" and case["cmd"] == "rename":
                 continue
+            if len(os.path.basename(p).encode("utf-8")) > 255:
+                continue
             with open(p, "wb") as fd:
                 fd.write(b"bystander " + b.encode())
         if case["bystanders"]:
@@ -109,7 +124,26 @@ def run_case(case):
                 os.remove(p)
             classes.append("damaged-payload")
         target_new = os.path.join(box, name + ".torrent")
-        if case["cmd"] == "rename" and case["occupied"]:
+        too_long = len((name + ".torrent").encode("utf-8")) > 255
+        if too_long:
+            # the exact target cannot exist; what can is whatever shortened form the tool falls back to - which a rename must not
+            # clobber either.  Learn that destination from a dry run in a twin directory, then occupy the same place here.
+            classes.append("name-too-long")
+            target_new = None
+            if case["cmd"] == "rename" and case["occupied"]:
+                twin = os.path.join(scr, "twin")
+                os.makedirs(twin)
+                shutil.copyfile(mf, os.path.join(twin, mf_name))
+                try:
+                    target.execute(["rename", os.path.join(twin, mf_name)])
+                except Exception:  # noqa: BLE001
+                    pass
+                made = [n for n in os.listdir(twin) if n != mf_name]
+                if len(made) == 1 and not os.path.exists(os.path.join(twin, mf_name)):
+                    target_new = os.path.join(box, made[0])
+                    classes.append("learned-destination")
+                target.reset()
+        if case["cmd"] == "rename" and case["occupied"] and target_new is not None:
             kind = case.get("occupant", "junk")
             if kind == "junk":
                 data = b"occupant"
@@ -183,6 +217,12 @@ def run_case(case):
         if exc is not None:
             return Outcome(Violation("C18:create:exception:%s" % type(exc).__name__, "create raised %r" % (exc,)), True, classes)
         other = [(p, c) for p, c in diff if p != expect_changed]
+        if (len(diff) == 1 and diff[0][1] == "created" and name.endswith(".torrent")
+                and not (diff[0][0] == name or diff[0][0].startswith(name + "/"))):
+            # C18 does not fix how the default file name is spelled for a payload that is already called *.torrent:
+            # one new file outside the payload is the output metafile
+            classes.append("other-default-name")
+            return Outcome(None, nontrivial, classes)
         if other:
             kind = other[0][1]
             which = "bystander" if any(other[0][0] == b.replace("NAME", name) for b in case["bystanders"]) else (
@@ -197,6 +237,12 @@ def run_case(case):
         return Outcome(None, nontrivial, classes)
     if cmd == "rename":
         new_rel = name + ".torrent"
+        if too_long:
+            # nothing may be replaced or lost, whatever the tool does about the over-long name (refusing is fine)
+            lost = [p for p, c in diff if c in ("deleted", "changed") and p != mf_name]
+            if lost or (any(p == mf_name and c == "deleted" for p, c in diff) and not any(c == "created" for p, c in diff)):
+                return Outcome(Violation("C18:rename:clobber-long-name", "rename with an over-long name: changes=%r" % (diff[:4],)), True, classes)
+            return Outcome(None, nontrivial, classes)
         if case["occupied"] or mf_name == new_rel:
             if exc is None or diff:
                 return Outcome(Violation("C18:rename:clobber", "rename onto an existing file: exception=%r, changes=%r" % (exc, diff[:4])), True, classes)
